@@ -7,6 +7,7 @@
   `wf after && preserved before after` on the plans exported from the real optimizer (Driver/C31.lean).
 -/
 import IQE.Engine.PlanWf
+import IQE.Lemmas.PlanRun
 namespace IQE.Props.C31
 open IQE.Engine.PlanWf
 
@@ -19,6 +20,27 @@ theorem C31_checker_sound (before after : Plan) (h : preserved before after = tr
   have hn : ∀ s : Schema, s.map (·.name) = (nameTy s).map (·.1) := by intro s; simp [nameTy]
   have ht : ∀ s : Schema, s.map (·.ty) = (nameTy s).map (·.2) := by intro s; simp [nameTy]
   exact ⟨by rw [hn, hn, h'], by rw [ht, ht, h']⟩
+
+/-- Well-formed plans run without column-not-found: in the run-time model of the exported plans (rows flow bottom-up,
+    every column reference is resolved per batch by the engine's resolution order against the schema of the batch the
+    operator receives, falling back to the enclosing queries' rows inside subqueries), for EVERY catalog contents and
+    EVERY interpretation of the scalar operators, aggregates, window functions and subquery predicates that does not
+    itself invent that error, a plan accepted by the checker `wf` never fails with ColumnNotFound — and every row it
+    emits has exactly the width of the schema the model says its operator emits. -/
+theorem C31_wf_runs (o : Ops) (sane : o.Sane) (cat : String → Option (List Row)) (p : Plan) (h : wf p = true) :
+    exec o cat [] p ≠ .error .cnf ∧
+    ∀ rows, exec o cat [] p = .ok rows → ∀ r ∈ rows, r.length = (outSchema p).length := by
+  have hg := exec_good o sane cat [] (by intro q hq; cases hq) p (by simpa [wf] using h)
+  constructor
+  · intro he; rw [he] at hg; exact hg rfl
+  · intro rows he; rw [he] at hg; exact hg
+
+/-- The same inside a subquery: with enclosing rows of the enclosing schemas' widths in scope. -/
+theorem C31_wf_runs_scoped (o : Ops) (sane : o.Sane) (cat : String → Option (List Row)) (outer : List Scope)
+    (hs : ∀ sc ∈ outer, sc.2.length = sc.1.length) (p : Plan) (h : wfP (outer.map (·.1)) p = true) :
+    exec o cat outer p ≠ .error .cnf := by
+  have hg := exec_good o sane cat outer hs p h
+  intro he; rw [he] at hg; exact hg rfl
 
 /-! ### non-vacuity -/
 
@@ -33,5 +55,14 @@ example : wf (.project [.col none "a"] [f ['a'] ['t'] ['i'], f ['b'] ['t'] ['i']
 -- a rule that renames an output column does not preserve the schema
 example : preserved scanT (.project [.col none "a", .col none "b"] [f ['a'] ['t'] ['i'], f ['c'] ['t'] ['i']] scanT) = false := by decide
 example : preserved scanT (.filter (.col none "a") scanT) = true := by decide
+
+-- the model does raise column-not-found on the ill-formed plan above (trivial operators, one row [1, 2] in table t)
+def ops0 : Ops := { lit := fun _ _ => none, scalar := fun _ _ _ => .ok none, agg := fun _ _ => .ok none, win := fun _ _ _ => .ok none, subq := fun _ _ _ _ => .ok none }
+def isCnf : Except RErr (List Row) → Bool | .error .cnf => true | _ => false
+def isRows (expected : List Row) : Except RErr (List Row) → Bool | .ok rows => rows == expected | _ => false
+example : isCnf (exec ops0 (fun _ => some [[some 1, some 2]]) []
+    (.filter (.col (some "t") "b") (.scan "t" [f ['a'] ['t'] ['i'], f ['b'] ['t'] ['i']] (some [0]) []))) = true := by decide
+example : isRows [[some 1]] (exec ops0 (fun _ => some [[some 1, some 2]]) []
+    (.project [.col (some "t") "a"] [f ['x'] [] ['i']] (.scan "t" [f ['a'] ['t'] ['i'], f ['b'] ['t'] ['i']] (some [0]) []))) = true := by decide
 
 end IQE.Props.C31
